@@ -31,6 +31,21 @@ THEOREMS = [
     "Nix.C01.C01_create_empty",
     "Nix.C01.C01_compression_transparent",
     "Nix.C01.C01_compression_table",
+    "Nix.C01.C01_source_append",
+    "Nix.C01.C01_source_write",
+    "Nix.C01.C01_source_read",
+    "Nix.C01.C01_source_len_size",
+    "Nix.C01.C01_source_create",
+    "Nix.C01.C01_conversion",
+    "Nix.C01.C01_refused_kinds",
+    "Nix.C01.C01_raised_unchanged",
+    "Nix.C01.C01_performed_step",
+    "Nix.C01.C01_typed_history",
+    "Nix.C01.C01_typed_always",
+    "Nix.C01.C01_create_typed",
+    "Nix.C01.C01_read_rule",
+    "Nix.C01.C01_ellipsis",
+    "Nix.C01.C01_shrink_grow_fill",
 ]
 ASSUMPTIONS = [
     "libhdf5/h5py storage is replaced by an executable stand-in (NdArray: extent change keeps surviving multi-indices "
